@@ -25,18 +25,19 @@ CHECKS = {
              "counted",
         design_ref="DESIGN.md section 2, C01"),
     "C03": dict(
-        technique="runtime monitoring: ASan + UBSan + LeakSanitizer (queried "
-                  "per history) over generated API call histories with "
-                  "valid/boundary/invalid arguments",
+        technique="runtime monitoring: clang ASan + UBSan + LeakSanitizer "
+                  "(queried per history), gcc ASan/UBSan as second opinion and "
+                  "valgrind memcheck on a sample, over generated API call "
+                  "histories with valid/boundary/invalid arguments",
         text="Generated histories over every object kind and >110 public "
              "functions, arguments from valid, boundary and invalid domains, "
              "buffers always truthful; zero sanitizer reports, no crash/abort/"
              "hang, and calls invalid by a documented rule return the failure "
              "value. Executed paths only.",
-        note="trusted: gcc sanitizer runtimes; red-zone tools miss "
-             "non-adjacent / intra-object overflows; vla-bound and "
-             "nonnull-attribute checks are disabled (zero-length VLAs and "
-             "memcpy(p, NULL, 0) are not treated as defects)",
+        note="trusted: clang 14 / gcc 12 sanitizer runtimes, valgrind 3.19; "
+             "red-zone tools miss non-adjacent / intra-object overflows; "
+             "zero-length VLAs and memcpy(p, NULL, 0) are not treated as "
+             "defects (negative VLA bounds are)",
         design_ref="DESIGN.md section 2, C03"),
     "C04": dict(
         technique="runtime monitoring: sanitized library driven by generated "
@@ -323,11 +324,11 @@ def main():
             technique=c["technique"]))
     man = dict(
         version=1,
-        setup_cmd="python3 pylib/build.py asan plain fi",
+        setup_cmd="python3 pylib/build.py asan gasan plain fi",
         hooks=dict(
             guard="LIBVNA_VERIF",
             enable="pylib/build.py compiles every file of libvna_la_SOURCES "
-                   "from /repo/src with -DLIBVNA_VERIF=1 plus sanitizers; no "
+                   "from /repo/src with -DLIBVNA_VERIF=1 plus sanitizers (clang; gcc for the second-opinion and valgrind builds); no "
                    "source hooks are needed so far (allocation faults come "
                    "from a forced-include shim, observation from the scripted "
                    "driver over the public API)",
